@@ -181,8 +181,28 @@ func c06(c *Ctx, mc MsgCase, H int) {
 						step("op", "encode", "msg", mn, "buf", bn))
 					steps = append(steps, len(st)-1)
 				}
+				// the same with the message's lists lengthened (a view goes stale only when the buffer really grows)
+				big := inflate(v, 40)
+				st2 := []map[string]any{
+					step("op", "newbuf", "buf", "b1", "hex", "", "n", 1<<18), // reference: a buffer that never has to grow
+					step("op", "newmsg", "msg", "m", "module", mc.Mod, "type", mc.Typ, "value", big),
+					step("op", "encode", "msg", "m", "buf", "b1"),
+				}
+				var steps2 []int
+				for i, spare := range []int{0, 5, 9, 12, 16, 24, 40, 64, 100, 160, 300, 600, 1200} {
+					bn, mn := fmt.Sprintf("h%d", i), fmt.Sprintf("m%d", i)
+					pre, cons := strings.Repeat("00", 4096)+"6162", 4096
+					if i%2 == 1 {
+						pre, cons = "6162", 0 // also fresh, exactly sized buffers
+					}
+					st2 = append(st2, step("op", "newbuf", "buf", bn, "hex", pre, "consume", cons, "n", spare),
+						step("op", "newmsg", "msg", mn, "module", mc.Mod, "type", mc.Typ, "value", big),
+						step("op", "encode", "msg", mn, "buf", bn))
+					steps2 = append(steps2, len(st2)-1)
+				}
 				return &Violation{Detail: "Encode depends on how much of the buffer was already consumed: " + note,
-					Replay: &ReplayReq{Steps: st, Judge: Judge{Kind: "same_as_step", Step: steps[0], Step2: 2, ExpectHex: "6162", Steps: steps}}}
+					Replay: &ReplayReq{Steps: st, Judge: Judge{Kind: "same_as_step", Step: steps[0], Step2: 2, ExpectHex: "6162", Steps: steps},
+						Alt: &ReplayReq{Steps: st2, Judge: Judge{Kind: "same_as_step", Step: steps2[0], Step2: 2, ExpectHex: "6162", Steps: steps2}}}}
 			})
 			break // one candidate per path is enough
 		}
@@ -446,7 +466,14 @@ func c11(c *Ctx, mc MsgCase) {
 				step("op", "newbuf", "buf", "b", "hex", hexOf(full[:cut])),
 				step("op", "newmsg", "msg", "d", "module", mc.Mod, "type", mc.Typ),
 				step("op", "decode", "msg", "d", "buf", "b"),
-			}, Judge: j}
+			}, Judge: j,
+				// the same prefix as a slice of a longer array (the rest of the message lies in the spare capacity,
+				// as with w[:k] or a reused receive buffer)
+				Alt: &ReplayReq{Steps: []map[string]any{
+					step("op", "newbuf", "buf", "b", "hex", hexOf(full[:cut]), "tail", hexOf(full[cut:])+"abababababababab"),
+					step("op", "newmsg", "msg", "d", "module", mc.Mod, "type", mc.Typ),
+					step("op", "decode", "msg", "d", "buf", "b"),
+				}, Judge: j}}
 		}
 		d := h.freshReceiver(fs)
 		e.pushCall(fs, h.dec, []Value{d, bufPtr}, nil)
